@@ -136,8 +136,6 @@ func (d *verifC42Distribution) SetFeePool(ctx sdk.Context, p distributiontypes.F
 	d.pool = p
 }
 
-func verifC42SetLastRewardsBlock(k Keeper, ctx sdk.Context) error { return nil }
-
 func verifC42FromBech32(s string) (sdk.AccAddress, error) {
 	if s == "" {
 		return nil, fmt.Errorf("empty address")
@@ -167,11 +165,8 @@ func verifC42Setup(taxProfile int) *verifC42Env {
 		specKeeper: verifC42Specs{}, epochstorage: verifC42Epochs{}, dualstakingKeeper: ds, distributionKeeper: dist,
 	}
 	k.refillRewardsPoolTS = *timerstoretypes.NewTimerStore(key, cdc, "refill").WithCallbackByBlockTime(func(sdk.Context, []byte, []byte) {})
-	if !verif_symbolic() {
-		// symbolic run: SetLastRewardsBlock is stubbed (the collections schema builder validates names with a regexp)
-		sb := collections.NewSchemaBuilder(collcompat.NewKVStoreService(key))
-		k.lastRewardsBlock = collections.NewItem(sb, types.LastRewardsBlockPrefix, "last_rewards_block", collections.Uint64Value)
-	}
+	sb := collections.NewSchemaBuilder(collcompat.NewKVStoreService(key))
+	k.lastRewardsBlock = collections.NewItem(sb, types.LastRewardsBlockPrefix, "last_rewards_block", collections.Uint64Value)
 	params := types.DefaultParams()
 	params.ValidatorsSubscriptionParticipation = math.LegacyZeroDec()
 	if taxProfile == 1 {
@@ -329,6 +324,8 @@ func VerifC42Distribute() {
 		verif_assert("community-fee-pool-records-what-it-got", e.dist.pool.CommunityPool.AmountOf(d).Equal(math.LegacyNewDecFromInt(wantComm[d])))
 	}
 	verif_assert("month-advanced", k.GetIprpcRewardsCurrentId(ctx) == cur+1)
+	lastBlock, lerr := k.GetLastRewardsBlock(ctx)
+	verif_assert("distribution-block-recorded", lerr == nil && lastBlock == 100)
 	_, curStill := k.GetIprpcReward(ctx, cur)
 	verif_assert("distributed-month-removed", !curStill)
 	next, nextFound := k.GetIprpcReward(ctx, cur+1)
